@@ -65,7 +65,7 @@ Definition site_not_edge : string := "schema/adapter/mod.rs expect: not an Edge"
 Definition site_not_param : string := "schema/adapter/mod.rs:350 expect: not an EdgeParameter".
 Definition site_const_value : string := "schema/adapter/mod.rs:357 expect: failed to convert ConstValue".
 Definition site_name_not_string : string := "schema/adapter/mod.rs:97 expect: vertex type name was not a string".
-Definition site_subtypes : string := "schema/adapter/mod.rs:487 expect: input type was not part of this schema".
+Definition site_subtypes : string := "schema/adapter/mod.rs:488 expect: input type was not part of this schema".
 Definition site_start_edge : string := "schema/adapter/mod.rs:294 unreachable!: unexpected starting edge".
 Definition site_prop_name : string := "schema/adapter/mod.rs unreachable!: unexpected property name on type".
 Definition site_type_name : string := "schema/adapter/mod.rs unreachable!: unexpected type name".
